@@ -365,9 +365,12 @@ fn mode_finalize(env: &mut Env, ci: &CaseInfo, build: BuildDyn<'_>, n: usize, bm
     for i in 0..n {
         let f = snap.fin[i];
         let borrowed = bm.is_some() && paths[i].in_cell;
-        let ok = if borrowed { f <= 1 } else { f == 1 };
+        // a cell that is only borrowed shared can still be read, so the forwarding is still owed ("each contained value
+        // exactly once"); behind a mutably borrowed cell nothing can be forwarded safely: at most once
+        let mut_borrowed = borrowed && matches!(bm, Some(BorrowMode::Mut));
+        let ok = if mut_borrowed { f <= 1 } else { f == 1 };
         if !ok {
-            env.viol(ci, "finalize_forward", Some(i), format!("Finalize::finalize(&container) forwarded {} times to the value at position {} of {} (expected {})", f, i, n, if borrowed { "at most once" } else { "exactly once" }));
+            env.viol(ci, "finalize_forward", Some(i), format!("Finalize::finalize(&container) forwarded {} times to the value at position {} of {} (expected {})", f, i, n, if mut_borrowed { "at most once" } else { "exactly once" }));
             break;
         }
     }
